@@ -3,6 +3,7 @@ let () =
   | _ :: "chars-sweep" :: lo :: hi :: _ -> Chars_cmd.sweep (int_of_string lo) (int_of_string hi)
   | _ :: "match" :: file :: _ -> Match_cmd.run_file file
   | _ :: "utf32" :: file :: rest -> Utf32_cmd.run_file file (match rest with "0" :: _ -> false | _ -> true)
+  | _ :: "c15" :: file :: _ -> Pat_cmd.run_file file
   | _ :: "layout" :: file :: _ -> Match_cmd.layout_file file
   | _ :: "boxcar" :: file :: _ -> Boxcar_cmd.run_file file
   | _ :: "facts" :: file :: impl :: brute :: _ -> Match_cmd.facts_file file impl (int_of_string brute)
